@@ -7,4 +7,16 @@ UNITS = [
                  "secp256k1_schnorrsig_sha256_tagged_aggregation"],
       timeout=600, min_obl=15, unwind=66, replay=True,
       note="18 tagged midstates + ZERO_MASK evaluated concretely through the real SHA-256 code"),
+    U("C02.nonce", ["C02"], "harness/C02/nonce.c", "h_nonce", replace=HASH,
+      functions=["nonce_function_bip340_impl", "secp256k1_nonce_function_bip340_sha256_tagged", "secp256k1_nonce_function_bip340_sha256_tagged_aux",
+                 "secp256k1_sha256_initialize_tagged", "secp256k1_memcmp_var"],
+      timeout=600, min_obl=20, unwind=66,
+      note="hash stream contracts (hash_log.h + second finalize watch, ghost-only extension in assumed_C02.h); msglen <= 100000, algolen <= 200 symbolic"),
+    U("C02.verify", ["C02"], "harness/C02/verify.c", "h_verify",
+      replace=["secp256k1_ecmult", "secp256k1_ge_set_gej_var", "secp256k1_schnorrsig_challenge"],
+      assumed=["secp256k1_ecmult", "secp256k1_ge_set_gej_var"],
+      functions=["secp256k1_schnorrsig_verify", "secp256k1_fe_set_b32_limit", "secp256k1_scalar_set_b32", "secp256k1_xonly_pubkey_load", "secp256k1_pubkey_load",
+                 "secp256k1_fe_get_b32", "secp256k1_scalar_negate", "secp256k1_gej_set_ge", "secp256k1_fe_normalize_var", "secp256k1_fe_equal"],
+      timeout=600, min_obl=100, unwind=66, replay=False,
+      note="challenge replaced by its ghost-logging contract (body proved in C02.challenge)"),
 ]
